@@ -70,12 +70,57 @@ def rename_function(src, qual):
     return ast.unparse(tree)
 
 
+def _find(tree, qual):
+    node = tree
+    for p in qual.split("."):
+        nxt = None
+        for b in node.body:
+            if isinstance(b, (ast.FunctionDef, ast.ClassDef)) and b.name == p:
+                nxt = b
+        if nxt is None:
+            return None
+        node = nxt
+    return node
+
+
+def temp_function(src, qual):
+    """Behaviour-preserving 'extract temporary': every `return EXPR` becomes `ret_tmp = EXPR; return ret_tmp`."""
+    tree = ast.parse(src)
+    node = _find(tree, qual)
+    if node is None:
+        return None
+    changed = [False]
+
+    class T(ast.NodeTransformer):
+        def visit_FunctionDef(self, n):
+            if n is node:
+                self.generic_visit(n)
+            return n
+
+        def visit_Lambda(self, n):
+            return n
+
+        def visit_Return(self, n):
+            if n.value is None or isinstance(n.value, (ast.Name, ast.Constant)):
+                return n
+            changed[0] = True
+            return [ast.Assign(targets=[ast.Name(id="ret_tmp", ctx=ast.Store())], value=n.value, lineno=n.lineno), ast.Return(value=ast.Name(id="ret_tmp", ctx=ast.Load()))]
+    T().visit(node)
+    if not changed[0]:
+        return None
+    ast.fix_missing_locations(tree)
+    return ast.unparse(tree)
+
+
+MODE = {"rename": None, "temp": None}
+
+
 def one(args):
-    prop, repo, rel, qual, baseline = args
+    prop, repo, rel, qual, baseline, mode = args
     tmp = None
     try:
         src = open(os.path.join(repo, rel)).read()
-        new = rename_function(src, qual)
+        new = (temp_function if mode == "temp" else rename_function)(src, qual)
         if new is None:
             return qual, "skipped", ""
         try:
@@ -104,6 +149,11 @@ def one(args):
 def main():
     args = sys.argv[1:]
     mx = 60
+    mode = "rename"
+    if "--mode" in args:
+        i = args.index("--mode")
+        mode = args[i + 1]
+        del args[i:i + 2]
     if "--max" in args:
         i = args.index("--max")
         mx = int(args[i + 1])
@@ -121,12 +171,12 @@ def main():
         for mod_name, qual in funcs:
             rel = ix.rel(mod_name)
             if (rel, qual) in with_ob or len(funcs) <= mx:
-                jobs.append((prop, repo, rel, qual, baseline))
+                jobs.append((prop, repo, rel, qual, baseline, mode))
         jobs = jobs[:mx]
         with ProcessPoolExecutor(max_workers=16) as ex:
             res = list(ex.map(one, jobs))
         bad = [r for r in res if r[1] in ("FALSE-ALARM", "ANALYSIS-ERROR", "error")]
-        print(f"== {prop}: {len(res)} functions renamed, {sum(1 for r in res if r[1] == 'ok')} silent, {sum(1 for r in res if r[1] == 'skipped')} skipped, {len(bad)} problems")
+        print(f"== {prop} [{mode}]: {len(res)} functions transformed, {sum(1 for r in res if r[1] == 'ok')} silent, {sum(1 for r in res if r[1] == 'skipped')} skipped, {len(bad)} problems")
         for q, st, msg in bad:
             print(f"   {st:14s} {q}: {msg}")
 
